@@ -87,25 +87,28 @@ const invalidClass = "invalid"
 const xportEndEnv = "C04_XPORT_END" // unix nanoseconds; set by the parent process for its job children
 
 type xcfg struct {
+	Name       string
 	Depth      int      // longest history (transport choice on every operation)
 	SpellDepth int      // longest history with a re-spelled lease id; re-spelled ids only in its last two operations
 	Spellings  []string // spellings of one lease-id position (besides exact and blank-only)
 	Wide       bool     // thorough: delayed nack in the re-spelled singles, every batch form for every spelling
 }
 
-func xconfig(r *runner.Run, backend string) xcfg {
+// xconfigs: the bounds a job searches one after the other. Thorough starts with the quick bounds (so that it covers
+// what quick covers whatever the load on the machine) and spends the rest of its budget on the wide ones.
+func xconfigs(r *runner.Run, backend string) []xcfg {
 	quickSp := []string{"lsp", "nl", "wrap", "upper"}
 	fullSp := []string{"lsp", "nl", "wrap", "upper", "tsp", "tab", "crlf", "both", "nbsp", "vt", "zwsp"}
-	if r.Thorough() {
-		if backend == "sqlite" {
-			return xcfg{Depth: 4, SpellDepth: 3, Spellings: fullSp, Wide: true}
-		}
-		return xcfg{Depth: 5, SpellDepth: 4, Spellings: fullSp, Wide: true}
-	}
+	quick := xcfg{Name: "quick-bounds", Depth: 4, SpellDepth: 3, Spellings: quickSp}
+	wide := xcfg{Name: "wide-bounds", Depth: 5, SpellDepth: 4, Spellings: fullSp, Wide: true}
 	if backend == "sqlite" {
-		return xcfg{Depth: 3, SpellDepth: 2, Spellings: quickSp}
+		quick = xcfg{Name: "quick-bounds", Depth: 3, SpellDepth: 2, Spellings: quickSp}
+		wide = xcfg{Name: "wide-bounds", Depth: 4, SpellDepth: 3, Spellings: fullSp, Wide: true}
 	}
-	return xcfg{Depth: 4, SpellDepth: 3, Spellings: quickSp}
+	if r.Thorough() {
+		return []xcfg{quick, wide}
+	}
+	return []xcfg{quick}
 }
 
 // ---- spellings ---------------------------------------------------------------------------------------------------
@@ -804,8 +807,8 @@ func spelledOps(all []string, c xcfg) []op {
 					}
 				}
 				ops = append(ops,
-					op{Kind: k, Leases: []string{h, h}, Via: via, Sp: []string{sp0, sp1}},               // the id twice, differently padded
-					op{Kind: k, Leases: []string{h, h}, Via: via, Sp: []string{"", sp1}},                // as handed out and padded
+					op{Kind: k, Leases: []string{h, h}, Via: via, Sp: []string{sp0, sp1}},                  // the id twice, differently padded
+					op{Kind: k, Leases: []string{h, h}, Via: via, Sp: []string{"", sp1}},                   // as handed out and padded
 					op{Kind: k, Leases: []string{h, "lease_unknown"}, Via: via, Sp: []string{"", "blank"}}) // next to a blank-only id
 			}
 			ops = append(ops, op{Kind: k, Leases: []string{"lease_unknown", "lease_unknown"}, Via: via, Sp: []string{"blank", "blank"}})
@@ -929,15 +932,29 @@ func xportJob(r *runner.Run, t *testing.T, backends []string, k int) {
 	defer debug.SetGCPercent(debug.SetGCPercent(400))
 	withGRPC = true
 	job := xjobs(backends)[k]
-	backend, shard := job.Backend, job.Root
+	backend := job.Backend
 	curBackend = backend
-	cfg := xconfig(r, backend)
 	dir := filepath.Join(runner.Scratch(), "c04x")
-	deadline := time.Now().Add(runner.Pick(r, 50*time.Second, 8*time.Minute))
-	// the transport jobs queue behind the HTTP jobs: whenever one starts, the part ends with the HTTP part (TestCheck)
-	if v, err := strconv.ParseInt(os.Getenv(xportEndEnv), 10, 64); err == nil && v > 0 && time.Unix(0, v).Before(deadline) {
-		deadline = time.Unix(0, v)
+	end := time.Now().Add(runner.Pick(r, 50*time.Second, 11*time.Minute))
+	// quick: the transport jobs queue behind the HTTP jobs; whenever one starts, the part ends with the HTTP part (TestCheck)
+	if v, err := strconv.ParseInt(os.Getenv(xportEndEnv), 10, 64); err == nil && v > 0 && time.Unix(0, v).Before(end) {
+		end = time.Unix(0, v)
 	}
+	cfgs := xconfigs(r, backend)
+	for ci, cfg := range cfgs {
+		deadline := end
+		if ci < len(cfgs)-1 { // the quick bounds inside a thorough run
+			if d := time.Now().Add(3 * time.Minute); d.Before(deadline) {
+				deadline = d
+			}
+		}
+		xportSearch(r, t, job, cfg, dir, deadline)
+	}
+	r.Finish()
+}
+
+func xportSearch(r *runner.Run, t *testing.T, job xjob, cfg xcfg, dir string, deadline time.Time) {
+	backend, shard := job.Backend, job.Root
 	var ps probeStats
 	count := func(o op, rd reading) {
 		if o.Via == "grpc" {
@@ -993,6 +1010,9 @@ func xportJob(r *runner.Run, t *testing.T, backends []string, k int) {
 	if job.Subs > 1 {
 		label += fmt.Sprintf("/second-op-%d-of-%d", job.Sub, job.Subs)
 	}
+	if r.Thorough() {
+		label += "/" + cfg.Name
+	}
 	r.Add("states", res.States)
 	r.Add("transitions", res.Transitions)
 	r.Add("traces_validated_against_impl", res.Transitions)
@@ -1028,7 +1048,6 @@ func xportJob(r *runner.Run, t *testing.T, backends []string, k int) {
 		r.Violation(v.Key, fmt.Sprintf("[%s] after %v, %s: %s", backend, txt, v.Op, v.Message),
 			map[string]any{"engine": "xport", "backend": backend, "history": v.Hist, "op": v.Op, "history_text": txt, "op_text": v.Op.String()}, nil)
 	}
-	r.Finish()
 }
 
 // replayXport re-runs the case of a --replay document written by this part: the recorded history from a fresh boot,
